@@ -232,7 +232,7 @@ def execute(cases, route):
         out["status"] = "inconclusive"
         out["why"] = r.cls
         return out
-    if "Did not compile successfully" in r.out + r.err and core.BANNER not in r.err:
+    if core.compile_rejected(r):
         out["status"] = "rejected"
         return out
     lines = r.lines()
